@@ -15,6 +15,8 @@ package dns
 //@ spec nsep(s seq, i int) int = i <= 0 ? 0 : nsep(s, i-1) + (sep(s, i-1) ? 1 : 0) decreases i
 //@ spec lower(c int) int = (c >= 'A' && c <= 'Z') ? c + 32 : c
 
+//@ lemma nsep_zero(s seq): nsep(s, 0) == 0 [C19]
+
 //@ func NextLabel [C19 C14]
 //@   requires 0 <= offset
 //@   ensures empty: len(s) == 0 ==> i == 0 && end
@@ -53,3 +55,34 @@ package dns
 //@   pure
 
 //@ spec IsFqdnSpec(s seq) bool = len(s) > 0 && s[len(s)-1] == '.' && !escd(s, len(s)-1)
+
+//@ func Split [C19]
+//@   opt opaque = sep escd nsep
+//@   use nsep_zero(s)
+//@   ensures root: len(s) == 1 && s[0] == '.' ==> ret0 == nil
+//@   ensures cnt:  len(s) > 0 && !(len(s) == 1 && s[0] == '.') ==> len(ret0) == nsep(s, len(s)-1) + 1 && ret0[0] == 0
+//@   ensures idx:  len(s) > 0 && !(len(s) == 1 && s[0] == '.') ==> (forall m in 1..len(ret0) :: sep(s, ret0[m]-1) && nsep(s, ret0[m]) == m && 0 < ret0[m] && ret0[m] <= len(s)-1)
+//@   ensures mono: forall m in 0..len(ret0)-1 :: ret0[m] < ret0[m+1]
+//@   ensures off0: sliceoff(ret0) == 0
+//@   ensures fresh: fresh(ret0)
+//@   loop 1 invariant 1 <= len(idx) && idx[0] == 0 && 0 <= off && (len(s) > 0 ==> off <= len(s)-1) && fresh(idx)
+//@   loop 1 invariant lastoff: idx[len(idx)-1] == off
+//@   loop 1 invariant mono: forall m in 0..len(idx)-1 :: idx[m] < idx[m+1]
+//@   loop 1 invariant len(s) > 0 ==> len(idx) == nsep(s, off) + 1
+//@   loop 1 invariant seps: len(s) > 0 ==> (forall m in 1..len(idx) :: sep(s, idx[m]-1))
+//@   loop 1 invariant ord:  len(s) > 0 ==> (forall m in 1..len(idx) :: nsep(s, idx[m]) == m)
+//@   loop 1 invariant rng:  len(s) > 0 ==> (forall m in 1..len(idx) :: 0 < idx[m] && idx[m] <= len(s)-1)
+//@   loop 1 decreases len(s) - off
+
+//@ func SplitDomainName [C19]
+//@   opt opaque = sep escd nsep
+//@   ensures empty: len(s) == 0 ==> labels == nil
+//@   ensures root:  len(s) == 1 && s[0] == '.' ==> labels == nil
+//@   ensures cnt:   len(s) > 0 && !(len(s) == 1 && s[0] == '.') ==> len(labels) == nsep(s, len(s)-1) + 1
+//@   ensures sub:   forall m in 0..len(labels) :: issub(labels[m], s)
+//@   ensures beg0:  len(labels) > 0 ==> start(labels[0], s) == 0
+//@   ensures beg:   forall m in 1..len(labels) :: sep(s, start(labels[m], s) - 1) && nsep(s, start(labels[m], s)) == m
+//@   ensures end:   forall m in 0..len(labels)-1 :: sep(s, start(labels[m], s) + len(labels[m])) && nsep(s, start(labels[m], s) + len(labels[m]) + 1) == m + 1
+//@   ensures last:  len(labels) > 0 ==> start(labels[len(labels)-1], s) + len(labels[len(labels)-1]) == (IsFqdnSpec(s) ? len(s) - 1 : len(s))
+//@   loop 1 invariant len(labels) == rangeindex + 1 && begin == idx[rangeindex+1] && 0 <= begin && begin <= len(s)-1 && rangeindex + 1 <= len(idx) - 1
+//@   loop 1 invariant sub: forall m in 0..len(labels) :: issub(labels[m], s) && start(labels[m], s) == idx[m] && start(labels[m], s) + len(labels[m]) == idx[m+1] - 1
